@@ -102,6 +102,30 @@ class _R:
         return repr(n)
 
     def render(self, d, indent=1):
+        """text of d; at level 2 nested parts are sometimes hand-written *expressions* with that value"""
+        t = self._render(d, indent)
+        k = d[0]
+        if self.level == 2 and indent >= 2 and "\n" not in t and self.flip(0.04):
+            forms = ["(lambda: %s)()", "[%s][0]", "(%s if True else None)"]
+            if k == "int" and not isinstance(d[1], bool):
+                forms += ["int(str(%s))", "abs(%s)" if d[1] >= 0 else "-abs(%s)", "min(%s, 10**30)"]
+            elif k == "str":
+                forms += ["''.join([%s])", "str(%s)", "(%s + '')", "%s[:]"]
+            elif indent >= 3 and k == "list":
+                forms += ["list(%s)", "[x for x in %s]", "(%s + [])", "list(tuple(%s))"]
+            elif indent >= 3 and k == "tuple":
+                forms += ["tuple(%s)", "tuple(x for x in %s)"]
+            elif indent >= 3 and k == "dict":
+                forms += ["dict(%s)", "{k: v for k, v in %s.items()}"]
+            elif indent >= 3 and k == "set":
+                forms += ["set(%s)", "{x for x in %s}"]
+            elif k not in ("int", "str", "none", "bool", "float", "bytes"):
+                forms = []
+            if forms:
+                return self.draw(st.sampled_from(forms)) % t
+        return t
+
+    def _render(self, d, indent=1):
         k = d[0]
         if k == "int":
             return self.integer(d[1])
@@ -189,6 +213,7 @@ ALL_DEFAULTS = {
     "NT": [("b", "0")], "TNT": [("q", "'q'")], "Outer.Cfg": [("n", "0")],
     "APriv": [("y", "2")], "PAlias": [("other", "3")],
     "Hidden": [("b", "3")], "AHidden": [("b", "3")], "PHidden": [("b", "3")], "PExtra": [],
+    "SubPoint": [("y", "0")], "Point3": [("y", "0"), ("z", "0")],
 }
 
 
@@ -214,9 +239,12 @@ def noisy(draw, d, level=None, top_display=False):
 # ------------------------------------------------------------------------------ edit scripts
 
 SIBLING_CLASS = {
-    "Point": ("FPoint", {}), "FPoint": ("Point", {}),
-    "NT": ("TNT", {"a": "p", "b": "q"}), "TNT": ("NT", {"p": "a", "q": "b"}),
-    "APoint": ("AFrozen", {"a": "k", "b": "v"}), "AFrozen": ("APoint", {"k": "a", "v": "b"}),
+    # class -> [(another class of the same kind - or a sub / super class -, field renaming)]
+    "Point": [("FPoint", {}), ("SubPoint", {}), ("Point3", {}), ("SubPoint", {})],
+    "FPoint": [("Point", {})], "SubPoint": [("Point", {}), ("Point3", {})], "Point3": [("Point", {}), ("SubPoint", {})],
+    "NT": [("TNT", {"a": "p", "b": "q"})], "TNT": [("NT", {"p": "a", "q": "b"})],
+    "APoint": [("AFrozen", {"a": "k", "b": "v"})], "AFrozen": [("APoint", {"k": "a", "v": "b"})],
+    "Hidden": [("AHidden", {}), ("PHidden", {})], "AHidden": [("Hidden", {})], "PHidden": [("Hidden", {})],
 }
 
 
@@ -281,6 +309,13 @@ def mutate(draw, d, tier="quick", depth=0):
             return ["dict", kv]
         if choice == 7:
             return ["list", [a for a, _b in kv]]
+        if choice >= 8 and len(kv) >= 2:
+            # the same entries in another order (== ignores the order), sometimes with one changed value
+            kv = [list(p) for p in draw(st.permutations(kv))]
+            if choice == 9:
+                i = draw(st.integers(0, len(kv) - 1))
+                kv[i] = [kv[i][0], draw(leafs)]
+            return ["dict", kv]
         return d
     if k == "call":
         fields = [list(f) for f in d[2]]
@@ -306,7 +341,7 @@ def mutate(draw, d, tier="quick", depth=0):
             return draw(leafs)
         if choice == 8 and d[1] in SIBLING_CLASS:
             # a value of another class of the same kind (dataclass / attrs / namedtuple) with the same content
-            other, rename = SIBLING_CLASS[d[1]]
+            other, rename = draw(st.sampled_from(SIBLING_CLASS[d[1]]))
             return ["call", other, [[rename.get(f, f), v] for f, v in d[2] if rename.get(f, f) in gv.CALL_FIELDS[other]]]
         return d
     if k in ("set", "frozenset"):
